@@ -21,7 +21,7 @@ use crate::util::*;
 pub const PROP: Prop = Prop {
     id: "C13",
     level: "exploration",
-    rule: "(plus a near-limit sub-run: nesting depth 118-130 through generated mixtures of every nesting construct with the innermost construct drawn separately, so that what is still accepted right at the recursion limit is printed and read back) texts beyond the printer's image: G_layout renderings with every alternative spelling (radix prefixes, signs, leading zeros, exponent forms, escapes, character names, bracket lists, dotted proper lists, quote shorthands, every enabled keyword spelling, Emacs string/char escapes, unibyte strings), lenient symbols with unusual constituents (\" # ' , | { } \\ and non-alphabetic non-ASCII after the first character), digit-initial symbols, Racket #% symbols, plus mutated/token/byte inputs filtered to the accepted ones (acceptance rate measured); option sets: default, Emacs Lisp and sampled mixed sets with printer_for(Q) (DESIGN.md A.3); oracle: v = parse(text), t = print(v), parse(t) must equal M_fold(P,Q,v) within the C05 tolerance, and when every float is exactly representable by the reader print(parse(t)) == t (one step later where the documented folding changes the value); non-trivial = the input text differs from t; distinct by digest of (text, options)",
+    rule: "(rounds 6-7: every accepted value is also printed through a writer that takes one byte per call) (plus a near-limit sub-run: nesting depth 118-130 through generated mixtures of every nesting construct with the innermost construct drawn separately, so that what is still accepted right at the recursion limit is printed and read back) texts beyond the printer's image: G_layout renderings with every alternative spelling (radix prefixes, signs, leading zeros, exponent forms, escapes, character names, bracket lists, dotted proper lists, quote shorthands, every enabled keyword spelling, Emacs string/char escapes, unibyte strings), lenient symbols with unusual constituents (\" # ' , | { } \\ and non-alphabetic non-ASCII after the first character), digit-initial symbols, Racket #% symbols, plus mutated/token/byte inputs filtered to the accepted ones (acceptance rate measured); option sets: default, Emacs Lisp and sampled mixed sets with printer_for(Q) (DESIGN.md A.3); oracle: v = parse(text), t = print(v), parse(t) must equal M_fold(P,Q,v) within the C05 tolerance, and when every float is exactly representable by the reader print(parse(t)) == t (one step later where the documented folding changes the value); non-trivial = the input text differs from t; distinct by digest of (text, options)",
     assumptions: &[
         "printer_for(Q) as tabulated in DESIGN.md A.3",
         "floats are 'exactly representable by the reader' always in the noff build, and in the ff build when the printed form has <=15 significant digits, fits 2^53 and |exponent|<=22 under every reading",
